@@ -35,11 +35,18 @@ def gen_fn(r, v, weights):
     return req, agent
 
 
-def io_faults(ctx, r, prefer_big=False):
+def io_faults(ctx, r, prefer_big=False, prop="C10", torn=False, post_oracle=None):
     """the command's k-th (and every later) write / fsync / rename on the store's files returns an error (disk full, I/O error) instead of being
     carried out: a command that then exits non-zero must have left the store as it was; one that exits 0 must have done all of its work"""
     base, v, trace = crash.build_state(ctx, r, 8 + r.n(6), weights={"new_task": 50, "set": 30, "sequence": 10, "new_epic": 10})
     try:
+        if torn:
+            # the log ends in the fragment of an earlier killed writer (longer than a typical event line, so offsets measured before and after
+            # the repair differ by more than one line)
+            frag = b'{"type":"body","ts":"2026-01-01T00:00:00Z","data":{"id":"QQQQQQ","body":"' + b"torn " * (30 + r.n(60))
+            with open(base.log_path(), "ab") as f:
+                f.write(frag)
+            trace = trace + [{"edit": "torn fragment appended to the log, no newline", "bytes": frag.decode()}]
         g0 = base.graph()
         if "err" in g0:
             return
@@ -74,21 +81,21 @@ def io_faults(ctx, r, prefer_big=False):
                     g = c.graph()
                     prob = crash.reads_ok(c)
                     if "err" in g or prob:
-                        ctx.violation("C10 store unreadable after a failed %s (%s %s)" % (label, names[0], errno), prob or g.get("err", "")[:200], {"trace": trace + [step]}); return
+                        ctx.violation(prop + " store unreadable after a failed %s (%s %s)" % (label, names[0], errno), prob or g.get("err", "")[:200], {"trace": trace + [step]}); return
                     obs = crash.timeless(g["graph"])
                     if rc2 != 0 and obs != before_obs:
-                        ctx.violation("C10 a command that failed on an I/O error changed the store (%s, %s %s)" % (label, names[0], errno),
+                        ctx.violation(prop + " a command that failed on an I/O error changed the store (%s, %s %s)" % (label, names[0], errno),
                                       "exit %s (%s); the store differs from before: %s" % (rc2, err2.strip().splitlines()[-1][:120] if err2.strip() else "", str(fndiff.first_difference(before_obs, obs))[:300]),
                                       {"trace": trace + [step]}); return
                     if rc2 == 0 and obs != after_obs:
-                        ctx.violation("C10 a command reported success although its write failed (%s, %s %s)" % (label, names[0], errno),
+                        ctx.violation(prop + " a command reported success although its write failed (%s, %s %s)" % (label, names[0], errno),
                                       "exit 0; the store differs from a complete run: %s" % str(fndiff.first_difference(after_obs, obs))[:300], {"trace": trace + [step]}); return
                 finally:
                     c.close()
         # a write cut short at a byte offset (file-size limit = what a full disk does in the middle of a write): the kernel writes the first
         # bytes, the next attempt fails, the command exits non-zero — and must not leave its first lines behind
         import subprocess, os as _os
-        pre_size = len(base.log_bytes())
+        pre_size = len(base.log_bytes()) - (len(frag) if torn else 0)      # the writer drops the fragment before it appends
         twin = crash.clone(base)
         try:
             twin.exec(argv, stdin, env=env)
@@ -111,14 +118,16 @@ def io_faults(ctx, r, prefer_big=False):
                 g = c.graph()
                 prob = crash.reads_ok(c)
                 if "err" in g or prob:
-                    ctx.violation("C10 store unreadable after a write cut short (%s)" % label, prob or g.get("err", "")[:200], {"trace": trace + [step]}); return
+                    ctx.violation(prop + " store unreadable after a write cut short (%s)" % label, prob or g.get("err", "")[:200], {"trace": trace + [step]}); return
                 obs = crash.timeless(g["graph"])
+                if post_oracle and post_oracle(g["graph"], trace + [step]):
+                    return
                 if pr.returncode != 0 and obs != before_obs:
-                    ctx.violation("C10 a command that failed on a short write changed the store (%s)" % label,
+                    ctx.violation(prop + " a command that failed on a short write changed the store (%s)" % label,
                                   "exit %s (%s); the store differs from before: %s" % (pr.returncode, pr.stderr.decode("utf-8", "replace").strip()[-100:], str(fndiff.first_difference(before_obs, obs))[:300]),
                                   {"trace": trace + [step]}); return
                 if pr.returncode == 0 and obs != after_obs:
-                    ctx.violation("C10 a command reported success although its write was cut short (%s)" % label, str(fndiff.first_difference(after_obs, obs))[:300], {"trace": trace + [step]}); return
+                    ctx.violation(prop + " a command reported success although its write was cut short (%s)" % label, str(fndiff.first_difference(after_obs, obs))[:300], {"trace": trace + [step]}); return
             finally:
                 c.close()
     finally:
@@ -136,8 +145,8 @@ def run(ctx):
     for i in range(5 if ctx.quick else 120):
         explore2.explore(ctx, "C10", r.fork(), kindsA=(["claim_id", "set", "set+state", "new+state", "sequence"][i % 5],), kindsB=("new", "set", "claim_oldest"),
                          b_modes=("hold", "complete"), max_points=(5 if ctx.quick else 40))
-    for i in range(4 if ctx.quick else 80):
-        io_faults(ctx, r.fork(), prefer_big=(i % 2 == 0))
+    for i in range(6 if ctx.quick else 120):
+        io_faults(ctx, r.fork(), prefer_big=(i % 2 == 0), torn=(i % 3 == 2))
     ctx.cov["rule"] = ("injected I/O errors (write/fsync/rename/ftruncate returning ENOSPC/EIO/EACCES from the k-th call on) on multi-event commands: exit≠0 ⇒ store as before, exit 0 ⇒ complete; "
                        "seeded histories biased to failing commands (every validation class × command × multi-field shape); oracle: exit≠0 ⇒ log bytes and "
                        "observable graph identical; distinct = (command, outcome class, input mode, field set)")
